@@ -37,11 +37,19 @@ def run(ctx):
             ctx.validate(TRACE_MODULE, tr, label="pure")
     # the intrinsic specialisations (bitCount / bitfieldReverse steps on aligned 4 x 32-bit vectors, func_integer_simd.inl): the same
     # harness with the default qualifier switched to aligned_highp; judged by the same trace specification
-    for vl, isa in ([("aligned-sse2", ["-msse2"])] if ctx.quick else [("aligned-sse2", ["-msse2"]), ("aligned-avx2", ["-mavx2", "-mfma"])]):
+    # (quick: SSE2 in full; of the AVX2+FMA build the events of the 4 x 32-bit vectors, the only types with intrinsic specialisations)
+    for vl, isa in [("aligned-sse2", ["-msse2"]), ("aligned-avx2", ["-mavx2", "-mfma"])]:
         ba = ctx.build("c05_" + vl.replace("-", "_"), "c05.cpp", flags=["-DGLM_FORCE_INTRINSICS", "-DGLM_FORCE_DEFAULT_ALIGNED_GENTYPES"] + isa)
         if ba:
             tra = ctx.scratch.path("c05-%s.ndjson" % vl)
             ok, out = ctx.run_harness(ba, [tra, pairs, ctx.tier], tra)
+            if ok and ctx.quick and vl == "aligned-avx2":
+                trf = ctx.scratch.path("c05-%s-v4.ndjson" % vl)
+                with open(tra) as f, open(trf, "w") as g:
+                    for ln in f:
+                        if '"n":4' in ln and ('"t":"i32"' in ln or '"t":"u32"' in ln):
+                            g.write(ln)
+                tra = trf
             if ok:
                 ctx.validate(TRACE_MODULE, tra, label=vl)
     ctx.rule("8-bit types: every value (exhaustive) through every scalar/vector overload and every documented (offset,bits) pair; "
